@@ -278,6 +278,10 @@ func (vc *FuncVC) assumeTyped(st *State, v Term, t types.Type) {
 		st.assume(Or(Eq(IRef(v), tNull), Select(st.alloc, IRef(v))))
 		st.assume(Le(IntLit(0), ITag(v)))
 		st.assume(Implies(Eq(ITag(v), IntLit(0)), Eq(IRef(v), tNull)))
+		if it, ok := t.Underlying().(*types.Interface); ok && it.NumMethods() > 0 {
+			// static typing: a non-nil value of interface type T has a dynamic type implementing T
+			st.assume(Implies(Not(Eq(ITag(v), IntLit(0))), vc.implementsIface(st, v, it)))
+		}
 	}
 }
 
